@@ -164,6 +164,49 @@ Proof.
   - apply remaining_part_start.
 Qed.
 
+(* the k-th READ: after k items read as strings, READ ty delivers the k-th item of the
+   flat list, converted; a failing conversion is the trap, with the k values before it *)
+Lemma kth_read_from d ty it post pre : forall p i,
+  parts_nonempty d = true -> cur_ok d p i -> remaining d p i = pre ++ it :: post ->
+  run_ops d (Z.of_nat p, Z.of_nat i) (map DRead (repeat 5 (length pre) ++ [ty]))
+  = match convert ty it with
+    | RVal c => (map str_cell pre ++ [c], EDone)
+    | r => (map str_cell pre, ETrap r)
+    end.
+Proof.
+  induction pre as [|x pre IH]; intros p i Hne Hok Hrem.
+  - cbn [length repeat app map].
+    destruct (convert ty it) as [c|k| |] eqn:Ec;
+      pose proof (exec_read_ok d p i ty Hne Hok) as H; rewrite Hrem in H;
+      cbn [app] in H; rewrite Ec in H.
+    + destruct H as [p' [i' [He _]]]. rewrite (run_ops_read_val _ _ _ _ _ _ He). reflexivity.
+    + apply (run_ops_read_err _ _ _ _ _ _ H). discriminate.
+    + apply (run_ops_read_err _ _ _ _ _ _ H). discriminate.
+    + apply (run_ops_read_err _ _ _ _ _ _ H). discriminate.
+  - pose proof (exec_read_ok d p i 5 Hne Hok) as H. rewrite Hrem in H. cbn [app] in H.
+    rewrite convert_str in H. destruct H as [p' [i' [He [Hok' Hrem']]]].
+    cbn [length repeat app map].
+    rewrite (run_ops_read_val _ _ _ _ _ _ He).
+    rewrite (IH p' i' Hne Hok' Hrem'). destruct (convert ty it); reflexivity.
+Qed.
+
+Theorem kth_read d k ty it :
+  parts_nonempty d = true -> nth_error (concat d) k = Some it ->
+  run_ops d cur_init (map DRead (repeat 5 k ++ [ty]))
+  = match convert ty it with
+    | RVal c => (map str_cell (firstn k (concat d)) ++ [c], EDone)
+    | r => (map str_cell (firstn k (concat d)), ETrap r)
+    end.
+Proof.
+  intros Hne Hn. destruct (nth_error_split _ _ Hn) as [l1 [l2 [El Hl]]].
+  assert (Hf : firstn k (concat d) = l1).
+  { rewrite El, <- Hl. rewrite firstn_app, Nat.sub_diag, firstn_all. simpl. apply app_nil_r. }
+  rewrite Hf. subst k. change cur_init with (Z.of_nat 0, Z.of_nat 0).
+  apply (kth_read_from d ty it l2 l1); [exact Hne | |].
+  - apply cur_ok_part_start; [exact Hne | lia].
+  - rewrite remaining_part_start. exact El.
+Qed.
+
 (* conversions *)
 Lemma convert_empty :
   convert 1 DEmpty = RVal (CI 0) /\ convert 2 DEmpty = RVal (CL 0) /\
